@@ -35,7 +35,9 @@ Proof. exact flushed_file_complete. Qed.
 (* the facts about the current source tree these theorems rely on (Generated.v, regenerated every run) *)
 Theorem C12_source_facts :
   lib_writer_stages_ordered = true /\ cli_writer_stages_ordered = true /\
-  cli_writer_flushes_temp = true /\ lib_writer_flushes_temp = true.
+  cli_writer_flushes_temp = true /\ lib_writer_flushes_temp = true /\
+  (* the temp file starts empty whatever an earlier run left there: its content is what THIS run wrote *)
+  temp_open_truncate = true /\ temp_open_append = false /\ temp_open_create_new = false.
 Proof. repeat split; reflexivity. Qed.
 
 Print Assumptions C12_input_delivery_irrelevant.
